@@ -96,7 +96,7 @@ func (s *c01) Build(w *World) {
 		return t.Draw(len(stream))
 	}
 	for i := 0; i < nm && len(stream) > 0; i++ {
-		switch k := t.Draw(10); k {
+		switch k := t.Draw(12); k {
 		case 0: // swap two entries
 			a, b := pick(), pick()
 			stream[a], stream[b] = stream[b], stream[a]
@@ -145,6 +145,21 @@ func (s *c01) Build(w *World) {
 			e := advEntry{c: c, action: graphsync.LinkActionPresent, data: s.dag.Blocks[c], prefix: c.Prefix()}
 			stream = append(stream[:j], append([]advEntry{e}, stream[j:]...)...)
 			s.muts = append(s.muts, "misplaced")
+		case 10: // hash-function confusion: the link's digest, sent as a block under the identity hash
+			j := pick()
+			if dm, err := mh.Decode(stream[j].c.Hash()); err == nil {
+				stream[j].data = append([]byte(nil), dm.Digest...)
+				p := stream[j].c.Prefix()
+				p.Version, p.MhType, p.MhLength = 1, mh.IDENTITY, -1
+				stream[j].prefix = p
+				s.muts = append(s.muts, "digest-as-identity-block")
+			}
+		case 11: // the genuine bytes under another hash function
+			j := pick()
+			p := stream[j].prefix
+			p.Version, p.MhType, p.MhLength = 1, mh.SHA2_512, -1
+			stream[j].prefix = p
+			s.muts = append(s.muts, "other-hash-function")
 		case 9: // withhold a block but claim it present
 			j := pick()
 			stream[j].data = nil
